@@ -572,6 +572,13 @@ impl Order {
         Ok(())
     }
 
+    /// Verification hook (runtime monitors in `/verif`): public forwarding wrapper of
+    /// `record_builder_fee`.
+    #[cfg(gmsol_verif)]
+    pub fn verif_record_builder_fee(&mut self, amount: u64) -> Result<()> {
+        self.record_builder_fee(amount)
+    }
+
     /// Process GT.
     /// CHECK: the order must have been successfully executed.
     #[inline(never)]
